@@ -149,6 +149,17 @@ def rsaOaepPke (h : RsaHash) : PkeScheme RsaKey (Nat × Nat) where
   dec key ct label := match rsaDecryptOaep key.n key.d h label ct with
     | some m => .ok m | none => .err "rsa: decryption error"
 
+def rsaHashOfPlan (pl : AsymPlan) : RsaHash :=
+  if pl.hash = 1 then .sha1 else if pl.hash = 384 then .sha384 else if pl.hash = 512 then .sha512 else .sha256
+
+/-- Plan-indexed families on the Lean-native RSA: the hash comes from the dispatch result; the
+encryption scheme is OAEP or PKCS1-v1_5 according to the dispatched helper's stdlib call. -/
+def rsaSigFamily (pl : AsymPlan) : SigScheme RsaKey (Nat × Nat) := rsaPkcs1v15 (rsaHashOfPlan pl)
+
+def rsaPkeFamily (pl : AsymPlan) : PkeScheme RsaKey (Nat × Nat) :=
+  if pl.helper.stdCall = "rsa.EncryptOAEP" ∨ pl.helper.stdCall = "rsa.DecryptOAEP" then rsaOaepPke (rsaHashOfPlan pl)
+  else rsaPkcs1v15Pke
+
 /-- A toy key (n = 11·17, e = 7, d = 23) for which the key equation is checked exhaustively. -/
 def toyRsaKey : RsaKey where
   n := 187
